@@ -47,6 +47,7 @@ fn main() {
     if let Some(o) = arg(&args, "--only") {
         ctx.only = o.split(',').filter(|s| !s.is_empty()).map(|s| s.to_string()).collect();
     }
+    ctx.primary = arg(&args, "--primary").is_some() || out.is_none();
     if let Some(s) = arg(&args, "--scale") {
         ctx.scale = s.parse().unwrap_or(1.0);
     }
